@@ -65,7 +65,9 @@ RULE = ("seeded generator (VERIF_SEED): every (kind, signer, algorithm) combinat
         "sampled position; thorough: all positions). E cases (400 quick / 4000 thorough): one extension each (SubjectAltName, ExtKeyUsage, "
         "CertificatePolicies, NameConstraints, Subject/AuthorityKeyId) with byte strings of length 0..300 and 65536+, non-IA5 bytes, IPs of good "
         "and bad length, OIDs with boundary arcs and invalid shapes, unknown EKU constants: the extension VALUE bytes and the fields parsed back "
-        "are compared with the byte-level Coq model. Every case is non-trivial; distinct = distinct case text")
+        "are compared with the byte-level Coq model; every fifth E case is a TBSCertList (CreateRevocationList / CreateCRL with random "
+        "times around the UTCTime/GeneralizedTime switch, serials, entry extensions, key id, CRL number, extra extensions): the real "
+        "TBSCertList bytes must equal the model's. Every case is non-trivial; distinct = distinct case text")
 
 
 ALGO_ERRORS = ("x509:_requested_SignatureAlgorithm_does_not_match_private_key_type", "x509:_unknown_SignatureAlgorithm",
@@ -143,8 +145,8 @@ def _predicate_E(f, io):
             return True, ""          # ExtKeyUsage value that is no constant of the package: buildExtensions panics by design
         return False, "implementation " + (io[0] if io else "gave no result")
     kind = f[2]
-    if kind == "ncx":
-        return True, ""              # an arbitrary NameConstraints value as extra extension: decided by comparison with the model
+    if kind in ("ncx", "tbs"):
+        return True, ""              # arbitrary NameConstraints value / TBSCertList bytes: decided by comparison with the model
     if io[:2] == ["err", "create"]:
         return True, ""              # template refused: the property speaks about accepted templates
     if io[:2] == ["err", "parse"]:
